@@ -77,6 +77,7 @@ func H_decl() {
 	}
 	var seenOpt []string
 	var seenArg []string
+	var sharedDest string
 	var decls []decl
 	pattern := vParamString("pattern") // e.g. "oo", "oa": option / argument per position
 	n := 1 + vChoice("n", nd)
@@ -84,7 +85,10 @@ func H_decl() {
 		isVersion := pattern[i] == 'v' // Version(name, ...) declares a flag too
 		isOpt := pattern[i] == 'o' || isVersion
 		var name string
-		if isOpt {
+		if isOpt && vParamInt("names") == 1 {
+			// names outside ASCII (concrete): a name of one multi-byte character is not "one letter"
+			name = []string{"\u00e9", "e \u00e9", "\u65e5", "\u00fc uu", "\u00e9 \u00e9", "x \u00e9\u00e9"}[vChoice("uname", 6)]
+		} else if isOpt {
 			name = vAsciiString("optname", optLen)
 		} else {
 			name = vAsciiString("argname", argLen)
@@ -139,13 +143,18 @@ func H_decl() {
 					app.Strings(StringsOpt{Name: name})
 				}
 			} else {
-				switch kind {
-				case 0:
-					app.Bool(BoolArg{Name: name})
-				case 1:
-					app.String(StringArg{Name: name})
-				case 2:
-					app.Strings(StringsArg{Name: name})
+				if vParamInt("names") == 2 {
+					// the XxxArgPtr flavour with one destination variable for every declaration
+					app.StringArgPtr(&sharedDest, name, "", "")
+				} else {
+					switch kind {
+					case 0:
+						app.Bool(BoolArg{Name: name})
+					case 1:
+						app.String(StringArg{Name: name})
+					case 2:
+						app.Strings(StringsArg{Name: name})
+					}
 				}
 			}
 		}()
